@@ -11,7 +11,7 @@ use super::Info;
 use super::InterfaceDescription;
 
 /// `org.varlink.service` interface methods.
-#[derive(Debug, Serialize, Deserialize)]
+#[derive(Debug, Serialize)]
 #[serde(tag = "method", content = "parameters")]
 pub enum Method<'a> {
     /// Get information about the Varlink service.
@@ -23,6 +23,35 @@ pub enum Method<'a> {
         /// The interface to get the description for.
         interface: &'a str,
     },
+}
+
+impl<'de: 'a, 'a> Deserialize<'de> for Method<'a> {
+    fn deserialize<D>(deserializer: D) -> core::result::Result<Self, D::Error>
+    where
+        D: serde::Deserializer<'de>,
+    {
+        // `GetInfo` takes no parameters: accept `parameters` absent, `null` or `{}` (a plain unit
+        // variant would refuse the empty object that many clients always send).
+        #[derive(Deserialize)]
+        struct NoParams {}
+
+        #[derive(Deserialize)]
+        #[serde(tag = "method", content = "parameters")]
+        #[allow(dead_code)]
+        enum Helper<'a> {
+            #[serde(rename = "org.varlink.service.GetInfo")]
+            GetInfo(Option<NoParams>),
+            #[serde(rename = "org.varlink.service.GetInterfaceDescription")]
+            GetInterfaceDescription { interface: &'a str },
+        }
+
+        Ok(match Helper::deserialize(deserializer)? {
+            Helper::GetInfo(_) => Method::GetInfo,
+            Helper::GetInterfaceDescription { interface } => {
+                Method::GetInterfaceDescription { interface }
+            }
+        })
+    }
 }
 
 /// `org.varlink.service` interface replies.
